@@ -686,6 +686,13 @@ inductive Kind where
   | anyDictLeaf    -- a leaf of an AnyDict value (spyne.util.etreeconv.etree_to_dict)
   | anyXml         -- AnyXml: the child element itself is handed to user code
   | anyHtml        -- AnyHtml: likewise
+  | multiMember    -- a member with max_occurs > 1 (repeated element)
+  | integer        -- a non-text primitive (base_from_element)
+  | byteArray      -- ByteArray (byte_array_from_element)
+  | enumValue      -- Enum (enum_from_element)
+  | iterableItem   -- an item of an Iterable (iterable_from_element)
+  | headerMember   -- a member of a SOAP header object (Soap11.deserialize, in_header)
+  | hrefTarget     -- SOAP 1.1 multi-reference: the text copied from the element an `href` points to (resolve_hrefs)
   deriving DecidableEq, Repr
 
 inductive ReadRule where
@@ -780,6 +787,9 @@ structure Facts17 where
   deliver : Kind → ReadRule
   /-- lxml's module default parser, measured by behaviour -/
   lxmlDefault : ParserKw
+  /-- the module-level `PARSER` of spyne/interface/xml_schema/parser.py (parse_schema_string / _file and
+      xsd includes), measured by behaviour -/
+  schemaToolKw : ParserKw
   lib : Lib
 
 /-- the keyword table handed to `XMLParser` when a request arrives -/
